@@ -63,6 +63,8 @@ class Events(SysTarget):
                 if ev[0] == "missing-include":
                     _, f, ln, name, angle = ev
                     want[("include", os.path.realpath(f), ln, name, "system" if angle else "user")] += 1
+                elif ev[0] == "missing-forced":
+                    want[("forced", os.path.realpath(ev[1]), ev[2])] += 1
         # unknown directives are reported when a file is parsed: once per parsed file that contains one
         parsed = set(state.trees.keys())
         for rel, lines in case["files"].items():
@@ -80,8 +82,11 @@ class Events(SysTarget):
             m = r.getMessage()
             mi = re.match(r"(?s)(.*?):(\d+): (user|system) include '(.*?)' not found", m)
             md = re.match(r"(.*?):(\d+):(\d+): unrecognized directive '(.*)'", m)
+            mf = re.match(r"(?s)(.*?): user include '(.*?)' not found \(-include\)", m)
             if mi:
                 got[("include", mi.group(1), int(mi.group(2)), mi.group(4), mi.group(3))] += 1
+            elif mf:
+                got[("forced", os.path.realpath(mf.group(1)), mf.group(2))] += 1
             elif md:
                 sp = md.group(4)
                 if sp.startswith("["):          # the spelling is printed as the repr of a one-element list
@@ -101,7 +106,7 @@ class Events(SysTarget):
         if other:
             return {"expected": "no other warning for fully honoured input", "observed": other[:3], "klass": "events:spurious-warning"}
         # ---- printed totals == numbers issued per category
-        n_user = sum(n for k, n in got.items() if k[0] == "include" and k[4] == "user")
+        n_user = sum(n for k, n in got.items() if (k[0] == "include" and k[4] == "user") or k[0] == "forced")
         n_sys = sum(n for k, n in got.items() if k[0] == "include" and k[4] == "system")
         totals = {"all": None, "user": None, "system": None}
         for m in summary:
@@ -124,4 +129,4 @@ import native.C13 as _C13      # noqa: E402
 
 TARGETS = {"codebasin.config:load_database#sequences": _C13.Sequences(),       # one warning per occurrence (unknown compiler per entry)
            "codebasin.preprocessor:IncludeNode.evaluate_for_platform":
-           Events("events", ("missing", "unknown", "multi"), quick_n=250, thorough_n=4000)}
+           Events("events", ("missing", "unknown", "multi", "forced"), quick_n=250, thorough_n=4000)}
